@@ -290,6 +290,125 @@ def replay(case, obs):
     evcheck(list(sp.names), hexlist(m.group(1)), "registry destructor")
 
 
+# ---------------------------------------------------------------------------------------
+# T-sched / race-exploration cases: several threads on the same (array, id)
+def parse_sched_case(case):
+    hd, progs, sched = case.split("|")
+    w = hd.split()
+    infos = [tuple(int(x) for x in t.split(":")) for t in w[2:]]
+    threads = []
+    for th in progs.split("/"):
+        ops = []
+        for tok in th.split():
+            f = tok.split(":")
+            if f[0] == "T":
+                ops.append(("T", int(f[1]), int(f[2], 16), int(f[3], 16)))
+            elif f[0] == "S":
+                ops.append(("S", int(f[1]), int(f[2], 16), None))
+            else:
+                ops.append(("G", int(f[1]), None, None))
+        threads.append(ops)
+    return infos, threads
+
+
+def replay_sched(case, obs):
+    """What the repaired code guarantees to concurrent callers when every value written is
+    distinct and non-NULL (the generator's discipline): a value is installed at most once, so for
+    every expected value at most one test_and_set (or constructed default) succeeds; every value
+    returned was installed by somebody; all callers see the same default object; a constructed
+    object that lost is destructed (when the info has a destructor) and never handed out."""
+    infos, threads = parse_sched_case(case)
+    if obs.startswith("<") or "<deadlock>" in obs or "<crash>" in obs or "<timeout>" in obs or "<exit" in obs:
+        raise Fail("sched-noreturn", "the threads did not all return: " + obs[-60:])
+    parts = [p.strip() for p in obs.split(" | ")]
+    if len(parts) != len(threads) + 3:
+        raise Fail("unparsable", "unparsable observation: " + obs[:80])
+    final = hexlist(parts[len(threads)].split(":", 1)[1].strip())
+    res = []                                   # (thread, op, ret, made, dead)
+    for t, ops in enumerate(threads):
+        toks = parts[t].split(":", 1)[1].split()
+        if len(toks) != len(ops):
+            raise Fail("unparsable", "thread %d printed %d results for %d ops" % (t, len(toks), len(ops)))
+        for op, tok in zip(ops, toks):
+            k, val = tok.split("=", 1)
+            if k != op[0]:
+                raise Fail("unparsable", "result %s for op %s" % (tok, op))
+            if k == "G":
+                m = re.match(r"^([0-9a-f]+),([0-9a-f]+|-),\[([0-9a-f,]*)\]$", val)
+                if not m:
+                    raise Fail("unparsable", "get printed " + tok)
+                res.append((t, op, int(m.group(1), 16), 0 if m.group(2) == "-" else int(m.group(2), 16), hexlist(m.group(3))))
+            else:
+                res.append((t, op, int(val, 16), 0, []))
+    for i in range(len(infos)):
+        mine = [x for x in res if x[1][1] == i]
+        ct, dt = infos[i]
+        installed = {0: "the initial NULL"}
+        winners = {}                           # expected value -> who installed over it
+        has_set = any(x[1][0] == "S" for x in mine)
+        for t, op, ret, made, dead in mine:
+            if op[0] == "T" and ret == op[2]:
+                installed[op[2]] = "test_and_set of thread %d" % t
+                winners.setdefault(op[3], []).append("test_and_set(%x) of thread %d" % (op[2], t))
+            elif op[0] == "S":
+                installed[op[2]] = "set of thread %d" % t
+            elif op[0] == "G" and made != 0 and ret == made:
+                installed[made] = "default constructed by thread %d" % t
+                winners.setdefault(0, []).append("default %x of thread %d" % (made, t))
+        for x, who in winners.items():
+            if len(who) > 1:
+                raise Fail("sched-two-winners", "id %d: %s all replaced the value %x" % (i, " and ".join(who), x))
+            if x not in installed:
+                raise Fail("sched-value-from-nowhere", "id %d: %s replaced %x which nobody stored" % (i, who[0], x))
+        handed = set()
+        for t, op, ret, made, dead in mine:
+            if ret not in installed:
+                raise Fail("sched-value-from-nowhere", "id %d: thread %d got %x from %s, a value nobody stored (stored: %s)"
+                           % (i, t, ret, op[0], sorted("%x" % v for v in installed)))
+            handed.add(ret)
+            if op[0] == "G":
+                usable = ct not in (0, 1)
+                if ret == 0 and usable:
+                    raise Fail("sched-get-null", "id %d: get of thread %d returned NULL although the info has a constructor" % (i, t))
+                if made != 0 and ret != made:
+                    if dead != ([made] if dt else []):
+                        raise Fail("sched-lost-object", "id %d: thread %d constructed %x, lost, and destructed %s"
+                                   % (i, t, made, [hex(d) for d in dead]))
+                elif dead:
+                    raise Fail("sched-lost-object", "id %d: thread %d destructed %s" % (i, t, [hex(d) for d in dead]))
+        fin = final[i] if i < len(final) else 0
+        handed.add(fin)
+        for t, op, ret, made, dead in mine:
+            for d in dead:
+                if d in handed:
+                    raise Fail("sched-destructed-live-object", "id %d: %x was destructed by thread %d but is stored or was "
+                               "returned to a caller" % (i, d, t))
+        if fin not in installed:
+            raise Fail("sched-value-from-nowhere", "id %d: the slot ends with %x which nobody stored" % (i, fin))
+        if not has_set:
+            left = [v for v in installed if v not in winners]
+            if left != [fin]:
+                raise Fail("sched-final-value", "id %d: the slot ends with %x; stored and never replaced: %s"
+                           % (i, fin, sorted("%x" % v for v in left)))
+        defaults = {ret for t, op, ret, made, dead in mine if op[0] == "G" and ret != 0}
+        if len(defaults) > 1 and not has_set and all(op[0] == "G" or (op[0] == "T" and op[3] == 0) for _, op, _, _, _ in mine):
+            raise Fail("sched-two-winners", "id %d: gets returned different objects %s" % (i, sorted("%x" % v for v in defaults)))
+
+
+SCHED_DIRECTED = [
+    # two callers present NULL: whatever the interleaving exactly one wins and both return the winner
+    "sched 1 0:0 | T:0:a1:0 / T:0:b2:0 | ",
+    "sched 1 0:0 | T:0:a1:0 / T:0:b2:0 | 0 0 1 1 1 0 0",
+    "sched 1 0:0 | T:0:a1:0 / T:0:b2:0 / T:0:c3:0 | 0 1 2 0 1 2 2 1 0",
+    # three first gets of a slot with constructor and destructor: one default object for everybody
+    "sched 1 5:1 | G:0 / G:0 / G:0 | 0 0 0 1 1 1 2 2 2 2 0 0 1 1",
+    "sched 1 5:0 | G:0 / G:0 | ",
+    "sched 2 3:1 0:0 | T:1:a1:0 G:0 / G:0 T:1:b2:0 / G:0 G:1 | 0 1 2 0 1 2 0 1 2",
+    # a chain: a1 replaces NULL, then b2 and c3 both expect a1
+    "sched 1 0:0 | T:0:a1:0 / T:0:b2:a1 / T:0:c3:a1 | 0 0 0 0 1 1 2 2 2 1",
+]
+
+
 class C41(Check):
     id = "C41"
     prop_file = "theories/Properties/Properties_C41.v"
@@ -305,6 +424,8 @@ class C41(Check):
     extracted = ("info",)
     harness_src = "harness/h_info.c"
     link_parsec = False
+    harness_cflags = ("-DBUILDING_PARSEC",)   # interpose.h: the atomics of the included sources yield
+    race = True                               # + race-exploration build (plain accesses yield too)
     level_text = (
         "Coq theorems, for EVERY sequence of register / unregister / lookup / new array / destruct array / set / get / "
         "test_and_set operations, about an executable model that mirrors the loops of info.c (id-allocation scan with "
@@ -444,6 +565,58 @@ class C41(Check):
         out.append("U:%d" % r.below(top + 1))
         return " ".join(out)
 
+    # --- several threads on one array (T-sched; the same cases feed the race exploration)
+    def sched_case(self, r, long_sched=False):
+        n = r.pick([1, 1, 2, 3])
+        infos = [(r.pick([0, 0, 1, 2, 3, 5]), r.pick([0, 1, 1])) for _ in range(n)]
+        fam = r.below(5)
+        nt = r.range(2, 5)
+        hot = r.below(n)
+        if fam == 1:
+            infos[hot] = (r.pick([2, 3, 5]), r.pick([0, 1, 1]))
+        val = [0x10]
+        made = []                                    # values written so far on the hot slot
+
+        def fresh():
+            val[0] += 1
+            return val[0] * 0x101 + 0xa0000
+        threads = []
+        for t in range(nt):
+            ops = []
+            for _ in range(r.range(1, 4 if fam < 4 else 3)):
+                i = hot if r.chance(4, 5) else r.below(n)
+                if fam == 0:                         # publish once: everybody tries NULL -> own value, some read
+                    k = r.pick(["T0", "T0", "T0", "G"])
+                elif fam == 1:                       # everybody asks for the default object
+                    k = r.pick(["G", "G", "G", "T0"])
+                elif fam == 2:                       # chains: expected value = a value somebody writes
+                    k = r.pick(["T0", "Tc", "Tc", "G"])
+                else:
+                    k = r.pick(["T0", "Tc", "G", "S", "G"])
+                if k == "G":
+                    ops.append("G:%d" % i)
+                elif k == "S":
+                    v = fresh()
+                    made.append(v)
+                    ops.append("S:%d:%x" % (i, v))
+                else:
+                    v = fresh()
+                    old = 0 if (k == "T0" or not made) else r.pick(made)
+                    made.append(v)
+                    ops.append("T:%d:%x:%x" % (i, v, old))
+            threads.append(" ".join(ops))
+        kind = r.below(6)
+        if kind == 0:
+            sched = []
+        elif kind == 1:                              # one thread after the other
+            sched = [t for t in r.shuffle(range(nt)) for _ in range(40)]
+        elif kind == 2:                              # everybody up to the CAS, then in reverse order
+            sched = [t for _ in range(r.range(1, 3)) for t in range(nt)] + [t for t in reversed(range(nt)) for _ in range(3)]
+        else:
+            sched = [r.below(nt) for _ in range(r.range(1, 200 if long_sched else 60))]
+        return "sched %d %s | %s | %s" % (n, " ".join("%d:%d" % x for x in infos), " / ".join(threads),
+                                          " ".join(str(x) for x in sched))
+
     def cases(self):
         # Rng(seed) and Rng(seed+1) are the same SplitMix64 stream shifted by one draw and fall into
         # step after the first case; a fork (seeded by a mixed output) gives unrelated streams per seed
@@ -471,24 +644,50 @@ class C41(Check):
             out.append(self.random_case(r, r.pick([8, 14, 20, 30, 40])))
         for _ in range(100 if quick else 2000):
             out.append(self.random_case(r, r.pick([20, 40, 60]), npool=r.pick([3, 10, 16])))
+        # concurrent callers on one array, interleaved at the atomic operations
+        r2 = self.rng.fork()
+        out += SCHED_DIRECTED
+        for _ in range(1200 if quick else 20000):
+            out.append(self.sched_case(r2))
+        return out
+
+    def race_cases(self, cases):
+        """the same thread programs at the granularity of plain accesses: longer schedules"""
+        r = self.rng.fork()
+        out = [c for c in cases if c.startswith("sched ")][:600 if self.tier == "quick" else 4000]
+        for _ in range(600 if self.tier == "quick" else 6000):
+            out.append(self.sched_case(r, long_sched=True))
         return out
 
     def nontrivial_key(self, case):
+        if case.startswith("sched "):
+            infos, threads = parse_sched_case(case)
+            ids = [set(op[1] for op in th) for th in threads]
+            shared = any(ids[a] & ids[b] for a in range(len(ids)) for b in range(a + 1, len(ids)))
+            return case if shared else None
         return case if ("R:" in case and ("S:" in case or "G:" in case or "T:" in case or "U:" in case)) else None
 
     def dist(self, cases):
         d = {}
-        for c in cases:
+        seq = [c for c in cases if not c.startswith("sched ")]
+        for c in seq:
             for t in c.split():
                 d[t[0]] = d.get(t[0], 0) + 1
         d["cases"] = len(cases)
-        d["max_ops"] = max(len(c.split()) for c in cases)
+        d["sequential_cases"] = len(seq)
+        d["sched_cases"] = len(cases) - len(seq)
+        d["sched_threads"] = {}
+        for c in cases:
+            if c.startswith("sched "):
+                k = str(c.split("|")[1].count("/") + 1)
+                d["sched_threads"][k] = d["sched_threads"].get(k, 0) + 1
+        d["max_ops"] = max(len(c.split()) for c in seq)
         return d
 
     # ------------------------------------------------------------------ oracle
     def oracle(self, case, obs):
         try:
-            replay(case, obs)
+            (replay_sched if case.startswith("sched ") else replay)(case, obs)
         except Fail as e:
             return e.why
         except Exception as e:                       # the implementation printed garbage
@@ -497,7 +696,7 @@ class C41(Check):
 
     def signature(self, case, obs):
         try:
-            replay(case, obs)
+            (replay_sched if case.startswith("sched ") else replay)(case, obs)
         except Fail as e:
             return e.sig
         except Exception:
